@@ -15,10 +15,34 @@ def pipe(mode):
     return run_cases
 
 
+def random_histories(ctx, cases, n, lo, hi):
+    """Long histories that exhaustive exploration cannot reach: random sequences over the actions TLC used for the
+    same kind and layout (so every action has a shape the model and the driver know). Decided like every other
+    behaviour: model B folds Apply over the whole history."""
+    import json
+    rnd = random.Random(ctx.seed)
+    acts = {}
+    for c in cases:
+        key = (c["k"], c["l"])
+        bag = acts.setdefault(key, {})
+        for a in c["hist"]:
+            bag.setdefault(json.dumps(a, sort_keys=True), a)
+    keys = sorted(acts)
+    out = []
+    for _ in range(n):
+        k, l = rnd.choice(keys)
+        pool = list(acts[(k, l)].values())
+        out.append(dict(k=k, l=l, hist=[rnd.choice(pool) for _ in range(rnd.randrange(lo, hi + 1))]))
+    return out
+
+
 def explore(ctx, verdict, mode, cfg, timeout=1500):
     out, r = vlib.model_a(ctx, "MCGeomOps", cfg, ["EDGE"], timeout=timeout)
     cases = out["EDGE"]
     cases.sort(key=lambda c: vlib.digest(c))
+    rh = random_histories(ctx, cases, 3000 if ctx.quick else 40000, 6, 14)
+    ctx.coverage_extra["random_histories"] = dict(count=len(rh), length="6..14")
+    cases = cases + rh
     vlib.note_cases(ctx, cases, nontrivial=lambda c: any(a["op"] in ("push", "setcoords") for a in c["hist"]))
     pipe(mode)(ctx, verdict, cases)
     ctx.coverage_extra.setdefault("model_a", []).append(dict(cfg=cfg, states=r["distinct"], transitions=r["generated"],
